@@ -181,11 +181,17 @@ class ResolveQubit:
     def requires(self, idx, context):
         return wf_reg(self) and is_int(idx) and (context is None or isinstance(context, dict))
 
+    def ensures_shape(self, idx, context, result):
+        return isinstance(result, tuple) and len(result) == 2
+
     def ensures_root(self, idx, context, result):
         return same(result[0], root(self))
 
     def ensures_index(self, idx, context, result):
         return is_int(result[1]) and result[1] == phys(self, idx)
+
+    def ensures_root_fundamental(self, idx, context, result):
+        return wf_reg(result[0]) and result[0]._alias_from is None and result[1] < size_of(result[0]) and not size_bad(result[0])
 
     def raises_JaqalError(self, idx, context):
         return chain_bad(self, idx)
@@ -197,3 +203,90 @@ class ResolveQubit:
 
     def decreases(self, idx, context):
         return depth(self)
+
+
+# ---- qubit references -------------------------------------------------------------------------
+@spec
+def wf_qubit(q) -> bool:
+    """a qubit reference into a register, with a literal or let-valued index"""
+    return type_is(q, NamedQubit) and wf_reg(q._alias_from) and is_intconst(q._alias_index)
+
+
+@spec
+def integral(v) -> bool:
+    """an int, or a float with an integral value (Parameter.validate accepts those as integers too)"""
+    return is_int(v) or (is_float(v) and v == int(v))
+
+
+@spec
+def size_known(r) -> bool:
+    """int(r.size) succeeds: the size is an int or an integer-valued let"""
+    return not size_bad(r) and (is_int(size_val(r)) or (isinstance(size_val(r), Constant) and is_int(size_val(r)._value)))
+
+
+@contract("core.register:NamedQubit.resolve_qubit", props=["C06", "C14"])
+class QubitResolve:
+    def requires(self, context):
+        return wf_qubit(self) and (context is None or isinstance(context, dict))
+
+    def ensures_shape(self, context, result):
+        return isinstance(result, tuple) and len(result) == 2
+
+    def ensures_root(self, context, result):
+        return same(result[0], root(self._alias_from))
+
+    def ensures_index(self, context, result):
+        return is_int(result[1]) and result[1] == phys(self._alias_from, ival(self._alias_index))
+
+    def ensures_root_fundamental(self, context, result):
+        return wf_reg(result[0]) and result[0]._alias_from is None and result[1] < size_of(result[0]) and not size_bad(result[0])
+
+    def raises_JaqalError(self, context):
+        return chain_bad(self._alias_from, ival(self._alias_index))
+
+    raises_only = ("JaqalError",)
+
+    def inv_1(self, context, alias_index, alias_from, _k):
+        return is_intconst(alias_index) and ival(alias_index) == ival(self._alias_index) and same(alias_from, self._alias_from)
+
+
+@contract("core.register:NamedQubit.__init__", props=["C14"])
+class QubitInit:
+    """C14, first clause: a qubit reference with a literal index is only ever constructed in range."""
+
+    def requires(self, name, alias_from, alias_index):
+        return (type_is(self, NamedQubit)
+                and (alias_from is None or wf_reg(alias_from))
+                and (alias_index is None or is_int(alias_index) or is_float(alias_index)))
+
+    modifies = ("self._name", "self._alias_from", "self._alias_index")
+
+    def raises_JaqalError(self, name, alias_from, alias_index):
+        return (alias_index is None or alias_from is None
+                or (size_known(alias_from)
+                    and not (integral(alias_index) and 0 <= alias_index and alias_index < size_of(alias_from))))
+
+    raises_only = ("JaqalError",)
+
+    def ensures_fields(self, name, alias_from, alias_index, result):
+        return same(self._name, name) and same(self._alias_from, alias_from) and same(self._alias_index, alias_index)
+
+    def region_negative_index(self, name, alias_from, alias_index):
+        return is_int(alias_index) and alias_index < 0
+
+    def region_float_index(self, name, alias_from, alias_index):
+        return is_float(alias_index)
+
+
+@contract("core.register:Register.__getitem__", props=["C06", "C14"])
+class RegisterGetItem:
+    def requires(self, key):
+        return wf_reg(self) and is_int(key)
+
+    def raises_JaqalError(self, key):
+        return size_known(self) and not (0 <= key and key < size_of(self))
+
+    raises_only = ("JaqalError",)
+
+    def ensures_qubit(self, key, result):
+        return type_is(result, NamedQubit) and same(result._alias_from, self) and same(result._alias_index, key)
